@@ -47,7 +47,7 @@ var devKinds = []string{
 	"none", "drop", "dup", "swap", "retarget-unknown", "retarget-finished", "retarget-live", "retarget-negative",
 	"kind-msg-more", "kind-to-cancel", "kind-to-half", "empty", "data-minus1", "data-plus1", "size-zero", "size-minus1", "size-plus1", "size-max", "size-64MiB",
 	"method-empty", "method-noslash", "method-slash", "method-unknown-service", "method-unknown-method", "rev-unknown",
-	"win-zero", "win-max", "insert-new-reuse-last-finished", "insert-new-dup", "insert-new-lower", "insert-new-negative", "insert-frame-unknown-id", "big-chunk", "insert-data-after",
+	"win-zero", "win-max", "insert-new-reuse-last-finished", "insert-new-dup", "insert-new-dup-badrev", "insert-new-lower-badrev", "insert-new-negative-badrev", "insert-new-dup-badmethod", "insert-new-lower", "insert-new-negative", "insert-frame-unknown-id", "big-chunk", "insert-data-after",
 }
 
 func genConversation(rng *rand.Rand, nStreams int, maxSize int) *conversation {
@@ -311,6 +311,18 @@ func applyDeviation(c *conversation, kind string, p int, rng *rand.Rand) ([]conv
 			return nil, "", false
 		}
 		insertAfter(fNew(cur.f.StreamId, "verif.Svc/Unary", "dupnew", tunnelpb.ProtocolRevision_REVISION_ONE, 65536))
+	case "insert-new-dup-badrev":
+		// a stale id on a refusal path (unsupported revision): still a tunnel-level violation
+		insertAfter(fNew(cur.f.StreamId, "verif.Svc/Unary", "dupnew", 7, 65536))
+	case "insert-new-lower-badrev":
+		if cur.f.StreamId == 0 {
+			return nil, "", false
+		}
+		insertAfter(fNew(cur.f.StreamId-1, "verif.Svc/Unary", "lowernew", 7, 65536))
+	case "insert-new-negative-badrev":
+		insertAfter(fNew(-3, "verif.Svc/Unary", "negnew", 9, 65536))
+	case "insert-new-dup-badmethod":
+		insertAfter(fNew(cur.f.StreamId, "no-slash", "dupnew", tunnelpb.ProtocolRevision_REVISION_ONE, 65536))
 	case "insert-new-dup":
 		insertAfter(fNew(cur.f.StreamId, "verif.Svc/Unary", "dupnew", tunnelpb.ProtocolRevision_REVISION_ONE, 65536))
 	case "insert-new-lower":
